@@ -1,9 +1,13 @@
-use crate::{LonelyBlockHash, UnverifiedBlock};
+use crate::{LonelyBlockHash, UnverifiedBlock, delete_unverified_block};
 use ckb_channel::{Receiver, Sender};
+use ckb_error::InternalErrorKind;
 use ckb_logger::{debug, info};
 use ckb_shared::Shared;
+use ckb_shared::block_status::BlockStatus;
 use ckb_store::ChainStore;
+use ckb_types::packed::Byte32;
 use crossbeam::select;
+use dashmap::DashSet;
 use std::sync::Arc;
 
 pub(crate) struct PreloadUnverifiedBlocksChannel {
@@ -11,6 +15,7 @@ pub(crate) struct PreloadUnverifiedBlocksChannel {
     preload_unverified_rx: Receiver<LonelyBlockHash>,
 
     unverified_block_tx: Sender<UnverifiedBlock>,
+    is_pending_verify: Arc<DashSet<Byte32>>,
 
     stop_rx: Receiver<()>,
 }
@@ -20,12 +25,14 @@ impl PreloadUnverifiedBlocksChannel {
         shared: Shared,
         preload_unverified_rx: Receiver<LonelyBlockHash>,
         unverified_block_tx: Sender<UnverifiedBlock>,
+        is_pending_verify: Arc<DashSet<Byte32>>,
         stop_rx: Receiver<()>,
     ) -> Self {
         PreloadUnverifiedBlocksChannel {
             shared,
             preload_unverified_rx,
             unverified_block_tx,
+            is_pending_verify,
             stop_rx,
         }
     }
@@ -55,7 +62,16 @@ impl PreloadUnverifiedBlocksChannel {
         let block_hash = task.block_number_and_hash.hash();
         #[cfg(ckb_verif)]
         let _verif_section = crate::verif::section();
-        let unverified_block: UnverifiedBlock = self.load_full_unverified_block_by_hash(task);
+        // The verify thread deletes a block that fails verification. An entry queued here in the
+        // meantime (a second copy of that block, or a child of it) can no longer be loaded.
+        let unverified_block: UnverifiedBlock = match self.load_full_unverified_block_by_hash(task)
+        {
+            Ok(unverified_block) => unverified_block,
+            Err(task) => {
+                self.reject_deleted(task);
+                return;
+            }
+        };
         #[cfg(ckb_verif)]
         crate::verif::emit(
             "Preload",
@@ -81,36 +97,56 @@ impl PreloadUnverifiedBlocksChannel {
         }
     }
 
-    fn load_full_unverified_block_by_hash(&self, task: LonelyBlockHash) -> UnverifiedBlock {
+    // the block, or its parent, failed verification and has been deleted: this block is invalid too
+    fn reject_deleted(&self, task: LonelyBlockHash) {
+        let block_hash = task.hash();
+        let block_number = task.number();
+        let parent_hash = task.parent_hash();
+        delete_unverified_block(
+            self.shared.store(),
+            block_hash.clone(),
+            block_number,
+            parent_hash.clone(),
+        );
+        self.shared
+            .insert_block_status(block_hash.clone(), BlockStatus::BLOCK_INVALID);
+        self.is_pending_verify.remove(&block_hash);
+        task.execute_callback(Err(InternalErrorKind::Other
+            .other(format!(
+                "block {}-{} or its parent {} failed verification and has been deleted",
+                block_number, block_hash, parent_hash
+            ))
+            .into()));
+    }
+
+    fn load_full_unverified_block_by_hash(
+        &self,
+        task: LonelyBlockHash,
+    ) -> Result<UnverifiedBlock, LonelyBlockHash> {
         let _trace_timecost = ckb_metrics::handle()
             .map(|metrics| metrics.ckb_chain_load_full_unverified_block.start_timer());
 
+        // one consistent view: the block may be deleted concurrently by the verify thread
+        let snapshot = self.shared.store().get_snapshot();
+        let block_view = snapshot.get_block(&task.hash());
+        let parent_header = snapshot.get_block_header(&task.parent_hash());
+        let (Some(block_view), Some(parent_header)) = (block_view, parent_header) else {
+            return Err(task);
+        };
+
         let LonelyBlockHash {
-            block_number_and_hash,
-            parent_hash,
+            block_number_and_hash: _block_number_and_hash,
+            parent_hash: _parent_hash,
             epoch_number: _epoch_number,
             switch,
             verify_callback,
         } = task;
 
-        let block_view = self
-            .shared
-            .store()
-            .get_block(&block_number_and_hash.hash())
-            .expect("block stored");
-        let block = Arc::new(block_view);
-        let parent_header = {
-            self.shared
-                .store()
-                .get_block_header(&parent_hash)
-                .expect("parent header stored")
-        };
-
-        UnverifiedBlock {
-            block,
+        Ok(UnverifiedBlock {
+            block: Arc::new(block_view),
             switch,
             verify_callback,
             parent_header,
-        }
+        })
     }
 }
